@@ -6,3 +6,13 @@ Local Open Scope Z_scope.
 (** [NDSizeBase::operator[](index)]: throws std::out_of_range when index + 1 > rank *)
 Definition nd_get (v : list Z) (i : Z) : res Z :=
   if (0 <=? i) && (i <? zlen v) then Ok (nth (Z.to_nat i) v 0) else Err "std::out_of_range".
+
+(** [NDSizeBase::operator+=(const NDSizeBase &)] / [operator+]: std::out_of_range when the ranks differ,
+    element-wise unsigned 64-bit addition otherwise *)
+Fixpoint nd_add_go (a b : list Z) : list Z :=
+  match a, b with
+  | x :: a', y :: b' => u64_add x y :: nd_add_go a' b'
+  | _, _ => nil
+  end.
+Definition nd_add (a b : list Z) : res (list Z) :=
+  if zlen a =? zlen b then Ok (nd_add_go a b) else Err "std::out_of_range".
